@@ -10,13 +10,14 @@ from . import c01, c02
 PROP = 'C07'
 CONFIGS = ('default',)
 SIGMA = ['a', ' ', '\t', '{', '}', '{{', '}}', '!r', '!', ':', '=', '==', '<', '>', '(', ')', '[', ']', '"', '"""', '.', '#', '\\n', '\\x41', '\\{', '\\N{DASH}', '\n', '\r\n', '\\101', '\\0', '\\33', '\\u00e9', 'é']
+CORE = ['a', ' ', '{', '}', '{{', '}}', '!r', ':', '=', '(', ')', '[', ']', '"', '.', '\\n', '\n', 'é']
 WRAPPERS = [("f'", "'"), ("f'''", "'''"), ("rf'", "'"), ('F"', '"')]
 
 EXPRS = ['a', 'a.b', 'a[0]', 'a["k"]', 'a[1:2]', 'a == b', 'a != b', 'a < b', '(a := 1)', '(lambda: 1)', '(lambda x: x)(1)', '{1: 2}[1]', '{1, 2}', '[x for x in a]', 'a if b else c',
          '"s"', '"""t"""', 'not a', '-a', 'a or b', 'f(a, b=1)', '(a, b)', 'a,', '*a, b', 'yield', 'await a', '3.', '1_0', "b'x'", 'a is not b', 'a  ', '  a', '(a)', '((a))', 'é', '名[é]']
 CONVS = ['', '!r', '!s', '!a', ' !r', '!r ']
 SPECS = ['', ':', ':x', ':>10', ':{w}', ':{w}.{p}', ':>{w}x', ':{w!r}', ':{w:{p}}', ':é', ': ', ':}}', ':{{', ':\\n', ':\\x41', ':!r', '::', ':=', ':{{1:2}[1]}', ':{ {1:2}[1]}', ':{w}.{{2}.pop()}f', ':{{{w}}}']
-EQS = ['', '=', ' = ', '= ', ' =']
+EQS = ['', '=', ' = ', '= ', ' =', '=\t', '=\n', '= \x0c']
 PIECES = [('', ''), ('x', 'y'), ('{{', '}}'), ('\\n', '\\t'), ('é', '名'), ('\\101', '\\0'), ('\\N{DASH}\\u00e9', '\\33[0m')]
 
 
@@ -25,7 +26,7 @@ def field_product(tier):
     for e, c, s, q, (l, r) in itertools.product(exprs, CONVS, SPECS, EQS, PIECES):
         body = '%s{%s%s%s%s}%s' % (l, e, q, c, s, r)
         yield "f'%s'" % body
-        if tier == 'thorough' or (c in ('', '!r') and q in ('', '=')):
+        if tier == 'thorough' or (c in ('', '!r') and q in ('', '=', '=\n')):
             yield "f'''%s'''" % body
 
 
@@ -76,11 +77,11 @@ def judge(text, obs):
 
 def run_shard(args):
     kind = args[0]
-    if kind == 'bodies':
+    if kind in ('bodies', 'bodies-core'):
         _, n, shard = args
         texts = []
-        for body, l in X.shard_strings(SIGMA, n, shard):
-            for pre, post in WRAPPERS:
+        for body, l in X.shard_strings(SIGMA if kind == 'bodies' else CORE, n, shard):
+            for pre, post in (WRAPPERS if kind == 'bodies' or l < n else WRAPPERS[:2]):
                 texts.append((pre + body + post, 'bodies len=%d' % l))
     elif kind == 'fields':
         texts = [(t, 'field product') for t in args[1]]
@@ -108,6 +109,8 @@ def run(tier, seed):
     t0 = time.time()
     n = 3 if tier == 'quick' else 4
     jobs = [('bodies', n, s) for s in X.prefix_shards(SIGMA, n, 1 if tier == 'quick' else 2)]
+    if tier != 'quick':
+        jobs += [('bodies-core', n + 2, s) for s in X.prefix_shards(CORE, n + 2, 2)]
     jobs += [('fields', ch) for ch in X.chunks(field_product(tier), 8000)]
     jobs.append(('concat', 2 if tier == 'quick' else 3))
     total = C.Result()
@@ -118,10 +121,10 @@ def run(tier, seed):
     total.states = len(allh)
     total.transitions = total.evaluations
     total.nontrivial = total.validated
-    rule = ('(i) every f-string body of <=%d lexemes over the %d-symbol alphabet %r in the wrappers %r; (ii) field product: %d expressions x %d conversions x %d specs x %d "=" forms x literal '
+    rule = ('(i) every f-string body of <=%d lexemes over the %d-symbol alphabet %r in the wrappers %r (thorough tier: also <=%d lexemes over an 18-symbol core, the longest length in the first two wrappers only); (ii) field product: %d expressions x %d conversions x %d specs x %d "=" forms x literal '
             'neighbours, single and triple quoted; (iii) every sequence of <=%d literals of the 14-literal concatenation set; each in expression mode vs CPython 3.11: parts, conversion, nested spec, '
             'and positions of the expressions inside fields; states = distinct texts; non-trivial = f-strings CPython accepts whose tree and field ranges were compared'
-            % (n, len(SIGMA), SIGMA, [w[0] for w in WRAPPERS], len(EXPRS), len(CONVS), len(SPECS), len(EQS), 2 if tier == 'quick' else 3))
+            % (n, len(SIGMA), SIGMA, [w[0] for w in WRAPPERS], n + 2, len(EXPRS), len(CONVS), len(SPECS), len(EQS), 2 if tier == 'quick' else 3))
     return C.finish(PROP, tier, seed, t0, total, rule,
                     ['CPython 3.11 (pre-PEP 701) f-string compiler defines parts and field-expression positions', 'the pieces themselves (Constant/FormattedValue/nested JoinedStr) are not position-compared: 3.11 gives '
                      'each the extent of the whole literal'], C.py_version())
